@@ -8,6 +8,7 @@ G == INSTANCE Grammar
 KF == INSTANCE KnownFindings
 Q == INSTANCE Sql
 Sem == INSTANCE Semantics
+RT == INSTANCE RoundTrip
 
 CONSTANTS ResFile, VerdictFile, Prop, Shards
 Groups == ndJsonDeserialize(ResFile)
@@ -96,7 +97,13 @@ C04(g) == LET chk(c) ==
                 ELSE <<Fail("C04", c, "substituting the parameters does not give the inline predicate")>>
           IN [i \in DOMAIN g.cases |-> chk(g.cases[i])]
 
-Judge(g) == CASE Prop = "C03" -> C03(g) [] Prop = "C04" -> C04(g) [] Prop = "C05" -> C05(g) [] Prop = "C07" -> C07(g) [] Prop = "C09" -> C09(g)
+\* C12: JSON round trip of every returned expression
+C12(g) == LET one(c, key, r, tag) == IF key \notin DOMAIN c THEN <<>>
+                                     ELSE IF RT!RtVerdict(c[key], r.tree) = "" THEN <<>>
+                                     ELSE <<Fail("C12", c, RT!RtVerdict(c[key], r.tree) \o tag)>>
+          IN [i \in DOMAIN g.cases |-> one(g.cases[i], "rt", g.cases[i].res, "") \o one(g.cases[i], "rtdf", g.cases[i].resdf, " (default field)")]
+
+Judge(g) == CASE Prop = "C12" -> C12(g) [] Prop = "C03" -> C03(g) [] Prop = "C04" -> C04(g) [] Prop = "C05" -> C05(g) [] Prop = "C07" -> C07(g) [] Prop = "C09" -> C09(g)
               [] Prop = "C10" -> C10(g) [] Prop = "C11" -> C11(g) [] Prop = "C06" -> C06(g) [] Prop = "C01" -> C01(g)
 
 RECURSIVE Cat(_, _)
